@@ -878,7 +878,7 @@ func glueNames(t *rapid.T, ms *ModuleSet) {
 	}
 	a := pairs[rapid.IntRange(0, len(pairs)-1).Draw(t, "glueA")]
 	b := pairs[rapid.IntRange(0, len(pairs)-1).Draw(t, "glueB")]
-	sep := rapid.SampledFrom([]string{".", ".", "/", "-"}).Draw(t, "glueSep")
+	sep := rapid.SampledFrom([]string{".", ".", "/", "-", "", ""}).Draw(t, "glueSep") // "" = glued without any separator
 	newB, newRa := a.typ+sep+"g", "g"+sep+b.rel
 	if a.typ == b.typ || a.rel == b.rel || a.typ == "user" || b.typ == "user" || usedT[newB] || usedR[newRa] || !singleToken(newB) || !singleToken(newRa) {
 		return
